@@ -121,6 +121,25 @@ pub fn run_with_cuts(scratch: &std::path::Path, history: &[Ev], cuts: &[Cut], ms
                 continue;
             };
             step += 1;
+            if in_closing && !msd_only && matches!(ev, Ev::RegisterAll) {
+                // progress inside the epoch of the crash: the closing environment has, by now, run
+                // five rounds, shown a new immutable file and run four more rounds; the round of
+                // that later beacon must be certified and have its artifact before the epoch ends
+                let tp = w.time_point().await;
+                let entity = SignedEntityType::CardanoDatabase(mithril_common::entities::CardanoDbBeacon::new(*tp.epoch, tp.immutable_file_number));
+                if !has_certificate_and_artifact(&w, &entity).await {
+                    violations.push(Violation {
+                        key: "C15/no-progress-after-crash".into(),
+                        what: format!(
+                            "after crash(es) at {:?} and restart, nine closing rounds and a new immutable file later, the later round {entity:?} of the same epoch is still not certified with its artifact; state {}, last log lines {:?}",
+                            cuts.iter().map(|c| format!("{}#{}", c.point, c.occurrence)).collect::<Vec<_>>(),
+                            w.state(),
+                            &log[log.len().saturating_sub(6)..]
+                        ),
+                        replay: json!({"history": hist_json, "cuts": cuts_json, "msd_only": msd_only, "honest_once": honest_once, "step": "before the epoch change of the closing environment", "log": log}),
+                    });
+                }
+            }
             let before = ctl.trace_len();
             let crashed = {
                 let parked = ctl.parked.clone();
